@@ -24,7 +24,10 @@ R3 matching semantics: `MatchingRule.eval` can return a true value exactly when 
    iff `any` rule evaluates true for *that* target's deployment name and service (the guard of the accumulation
    folds to the rule evaluation; `<target> not in <accumulator>` is a recognised de-duplication conjunct; any other
    conjunct/disjunct the rule cannot evaluate is reported as keep/drop depending on something else than the
-   rules, not refused); an empty result raises.
+   rules, not refused); an empty result raises (the emptiness test is read through its reaching definitions:
+   `n = len(kept); if n == 0`, `empty = not kept; if empty` are the test itself when the temporary has one dominating
+   plain definition and nothing between it and the test touches the accumulator -- a length taken before the
+   accumulation is not the length of what is returned and is reported).
 R4 `DefaultScheduler._process_target`: acquiring `self.wait_queue` is the first suspension point (FIFO lock
    acquisition is what turns task-creation order into target priority); `_allocate_job` is guarded by the
    `job_context.scheduled` test and followed by `scheduled = True` before any suspension (one placement).
